@@ -508,8 +508,12 @@ func (c *Context) onRestart(message *RestartMessage, behavior vivid.Behavior) {
 	// 	return
 	// }
 
-	// 标记正在重启
-	atomic.StoreInt32(&c.state, killing) // 取代上方 CAS 注释
+	// 标记正在重启。仅运行中的 Actor 才能进入重启流程：当重启消息到达时 Actor 已在终止过程中
+	// （例如其父级正在停止并已向它发出终止消息，同时又对它此前的故障做出了重启决策），
+	// 必须让终止优先，否则终止会被改写为重启，等待其终止的一方将永远等待
+	if !atomic.CompareAndSwapInt32(&c.state, running, killing) {
+		return
+	}
 	c.restarting = message
 	c.Logger().Debug("receive restart", log.String("path", c.ref.GetPath()), log.String("reason", message.Reason), log.Any("fault", message.Fault), log.String("stack", string(message.Stack)))
 
